@@ -19,6 +19,7 @@ def sorted_strict(l):
     return all(a < b for a, b in zip(l, l[1:]))
 
 
+LIB_CASES = []          # calls of the modelled library kernels: (kind, Coq term of the model call, Coq term of the implementation's verdict, label)
 COQ_CASES = []          # (traps, occupancy, paths) as Coq text, expected show_sim text, label
 
 
@@ -87,6 +88,15 @@ def judge(ctx, move, label, S, method, args, valid, expected_end, sig_extra=None
     """run one library call; decide rejected / executable; compare with the documentation"""
     st, evs, extra = events.run_events(method, args, S)
     ctx.evaluations += 1
+    if move in ("single_col_zone.cz_move", "stdlib.moves.default_move_cz", "two_col_zone.rearrange") and all(int(i) >= 0 for l in args for i in l):
+        # the Gallina model of this kernel (Model/LibMoves.v) is asked the same question
+        zone = S.layout.static_traps["traps"]
+        nl = lambda l: clist([cnat(int(i)) for i in l])
+        zq = f"{clist([q(v) for v in zone.x_positions])} {clist([q(v) for v in zone.y_positions])}"
+        call = (f"cz_model {zq} {' '.join(nl(l) for l in args)} (2#1) (2#1)" if move != "two_col_zone.rearrange"
+                else f"rearrange_model {zq} {' '.join(nl(l) for l in args)}")
+        strict = f"rearrange_strict {zq} {' '.join(nl(l) for l in args)}" if move == "two_col_zone.rearrange" else "true"
+        LIB_CASES.append((move, call, f"(Some {paths_coq(evs)})" if st == "ok" else "None", f"{move} {label}", strict, st == "ok"))
     rep = {"move": move, "call": label}
     sig = {"move": move}
     sig.update(sig_extra or {})
@@ -132,7 +142,7 @@ def judge(ctx, move, label, S, method, args, valid, expected_end, sig_extra=None
 def index_lists(n, maxlen, rng, quick):
     """valid (sorted, in range) and invalid (unsorted, duplicated, out of range, empty) index lists over range(n)"""
     valid = [list(c) for k in range(1, maxlen + 1) for c in itertools.combinations(range(n), k)]
-    invalid = [[], [1, 0], [0, 0], [n], [0, n + 2], [-1]]
+    invalid = [[], [1, 0], [0, 0], [n], [0, n + 2], [-1], [n - 1, n], [n, n + 1]]
     if quick and len(valid) > 6:
         valid = rng.sample(valid, 6)
     return valid, [l for l in invalid if len(l) <= maxlen or l == []]
@@ -168,8 +178,9 @@ def cz_cases(ctx):
             for mate in [l for l in ally if len(l) == len(bad)][:2]:
                 combos.append((vx[0], bad, vx[0], mate))
                 combos.append((vx[0], mate, vx[0], bad))
+        combos += [(vx[0], [], vx[0], []), ([], vy[0], [], vy[0]), ([], [], [], []), ([], [1, 0], [], vy[0]), (vx[0], vy[0], [], vy[0])]
         for cx, cy, qx, qy in combos:
-            valid = (all(sorted_strict(l) for l in (cx, cy, qx, qy)) and len(cx) == len(qx) and len(cy) == len(qy)
+            valid = (all(sorted_strict(l) and len(l) >= 1 for l in (cx, cy, qx, qy)) and len(cx) == len(qx) and len(cy) == len(qy)
                      and all(0 <= i < nx for i in cx + qx) and all(0 <= j < ny for j in cy + qy))
             # the control atoms visit the neighbourhood of the target sites and come back
             for name, meth in (("single_col_zone.cz_move", single_col_zone.cz_move), ("stdlib.moves.default_move_cz", old_moves.default_move_cz)):
@@ -179,7 +190,8 @@ def cz_cases(ctx):
 
 def rearrange_cases(ctx):
     from bloqade.shuttle.stdlib.layouts import two_col_zone
-    sizes = ctx.pick([(3, 3, 10.0, 2.0), (2, 2, 1.0, 2.0)], [(nx, ny, s, g) for nx in (1, 2, 3) for ny in (1, 2, 3) for s, g in ((10.0, 2.0), (8.0, 2.5), (1.0, 2.0), (4.0, 0.5))])
+    sizes = ctx.pick([(3, 3, 10.0, 2.0), (2, 2, 1.0, 2.0), (2, 2, 6.0, 2.0)],
+                     [(nx, ny, s, g) for nx in (1, 2, 3) for ny in (1, 2, 3) for s, g in ((10.0, 2.0), (8.0, 2.5), (1.0, 2.0), (4.0, 0.5), (6.0, 2.0), (6.5, 0.5))])
     for nx, ny, s, g in sizes:
         S = two_col_zone.get_spec(nx, ny, s, g)
         zone = S.layout.static_traps["traps"]
@@ -202,8 +214,15 @@ def rearrange_cases(ctx):
             for mate in [l for l in ally if len(l) == len(bad)][:2]:
                 combos.append((vx[0], bad, vx[0], mate))
                 combos.append((vx[0], mate, vx[0], bad))
+        combos += [(vx[0], [], vx[0], []), ([], vy[0], [], vy[0]), ([], [], [], []), ([], [1, 0], [], vy[0]), (vx[0], vy[0], [], vy[0])]
+        if nx >= 2:
+            # the right column of one pair and the left column of the next park between the pairs
+            combos += [([1, 2], [0], [0, 3], [0]), ([1, 2], list(range(ny)), [1, 2], list(range(ny)))]
+        if ny >= 3:
+            # neighbouring rows that move towards each other park between the rows
+            combos += [([0], [0, 1], [1], [1, 2]), ([0], [0, 2], [1], [1, 2]), ([0], [0, 1, 2], [0], [0, 1, 2])]
         for sx, sy, dx, dy in combos:
-            valid = (all(sorted_strict(l) for l in (sx, sy, dx, dy)) and len(sx) == len(dx) and len(sy) == len(dy)
+            valid = (all(sorted_strict(l) and len(l) >= 1 for l in (sx, sy, dx, dy)) and len(sx) == len(dx) and len(sy) == len(dy)
                      and all(0 <= i < 2 * nx for i in sx + dx) and all(0 <= j < ny for j in sy + dy))
             src = [(F(zone.x_positions[i]), F(zone.y_positions[j])) for i in sx for j in sy] if valid else []
             dst = [(F(zone.x_positions[i]), F(zone.y_positions[j])) for i in dx for j in dy] if valid else []
@@ -215,7 +234,7 @@ def rearrange_cases(ctx):
                 return {a: m.get(p, p) for p, a in before.items()}
             judge(ctx, "two_col_zone.rearrange", f"layout {nx}x{ny}@{s}/{g} src=({sx},{sy}) dst=({dx},{dy})", S, two_col_zone.rearrange,
                   (I(sx), I(sy), I(dx), I(dy)), valid and (compatible or set(dst) == set(src)), end if compatible else None,
-                  sig_extra={"spacing_ge_6": s >= 6.0}, doc=(zone.x_positions, zone.y_positions, sx, sy, dx, dy) if compatible else None)
+                  sig_extra={"spacing_ge_6": s >= 6.0, "spacing_eq_6": s == 6.0}, doc=(zone.x_positions, zone.y_positions, sx, sy, dx, dy) if compatible else None)
 
 
 def same_arguments_on_two_layouts(ctx):
@@ -402,11 +421,40 @@ def run(ctx):
     ctx.correspondence("every accepted valid rearrange call starts on zone[src_x, src_y] and ends on zone[dst_x, dst_y] (documented_transport evaluated "
                        "in Coq), so theorem C08_documented_transport_delivers gives its documented outcome", n_doc, not_doc)
     ctx.count("valid rearrange calls whose documented source/destination grids are confirmed in Coq", n_doc - len(not_doc))
+    kernel_models(ctx)
     ctx.sample({"call": COQ_CASES[0][2], "simulator": COQ_CASES[0][1][:200]} if COQ_CASES else "none")
     ctx.explanation = ("Theorems about the simulator that defines 'physically executable': every accepted sequence of paths conserves the atoms; "
                        "accepted releases are onto vacant trap sites, spots light up on trap sites, jumps while holding and dimension mismatches are "
                        "refused. Whether each library move yields accepted paths and ends where documented is decided by running the library on its "
                        "layouts over the stated bounds (exhaustive in the thorough tier) and simulating the played paths in Python and in Coq.")
+
+
+def kernel_models(ctx):
+    """Model/LibMoves.v against the library kernels: same verdict (rejected / accepted) and, when accepted, the same played paths"""
+    acc, rej = [c for c in LIB_CASES if c[5]], [c for c in LIB_CASES if not c[5]]
+    cap = ctx.pick(400, 3000)
+    cases = (acc if len(acc) <= cap else ctx.rng.sample(acc, cap)) + (rej if len(rej) <= cap else ctx.rng.sample(rej, cap))
+    chunks = [cases[i:i + 40] for i in range(0, len(cases), 40)]
+    bodies = [(f"lib_{k}", "From BS Require Import Core.Show Core.Base Model.Aod Model.LibMoves.\n"
+               "Definition row (c : option (list spath) * option (list spath) * bool) : string :=\n"
+               "  match c with (m, i, strict) => (show_bool (agrees m i) ++ show_bool (match m with Some _ => true | None => false end) ++ show_bool strict)%string end.\n"
+               "Eval vm_compute in (lines (map row " + clist([f"({c[1]}, {c[2]}, {c[4]})" for c in ch]) + ")).") for k, ch in enumerate(chunks)]
+    mism, n_acc, n_rej, n_strict = [], 0, 0, 0
+    for ch, (ok, vals, log) in zip(chunks, coqrun.eval_many(ctx.bdir, bodies)):
+        if not ok or len(vals) != 1 or len(vals[0]) != len(ch):
+            ctx.obligation("coqc library-kernel file evaluates", False, log[-800:])
+            continue
+        for c, line in zip(ch, vals[0]):
+            if line[:1] != "T":
+                mism.append({"call": c[3], "model_accepts": line[1:2] == "T", "implementation_accepts": c[5]})
+            n_acc += c[5]
+            n_rej += not c[5]
+            n_strict += (c[0] == "two_col_zone.rearrange" and c[5] and line[2:3] == "T")
+    ctx.correspondence("Model.LibMoves (cz_model / rearrange_model: the kernels as functions of zone coordinates and index lists) vs the library: "
+                       "same verdict and, when accepted, the same played paths", len(cases), mism)
+    ctx.count("library-kernel model: calls the implementation accepts", n_acc)
+    ctx.count("library-kernel model: calls the implementation rejects", n_rej)
+    ctx.count("accepted rearrange calls whose parking coordinates are pairwise different (rearrange_strict)", n_strict)
 
 
 def replay(data):
